@@ -4,11 +4,25 @@ import (
 	"fmt"
 	"go/token"
 	"go/types"
+	"regexp"
 	"strconv"
 	"strings"
 
 	"golang.org/x/tools/go/ssa"
 )
+
+// chanClosed: which channels have been closed. Channels made after entry start out open.
+func (vc *VC) chanClosed(st *State) *Term {
+	srt := vc.eng.st.ArrayOf(sortInt, sortBool)
+	first := !vc.declSet["CHclosed_0"]
+	h := vc.heap(st, "CHclosed", srt)
+	if first && vc.declSet["CHclosed_0"] {
+		vc.axiom("(forall ((r Int)) (! (=> (> r alloc_0) (not (select CHclosed_0 r))) :pattern ((select CHclosed_0 r))))")
+	}
+	return h
+}
+
+var txnBoundRE = regexp.MustCompile(`^txncount\(\) <= (\d+)$`)
 
 func (vc *VC) evalCallOperands(st *State, f *Frame, c *ssa.CallCommon) (args []Value, fnv Value) {
 	if c.IsInvoke() {
@@ -72,6 +86,9 @@ func (vc *VC) doCall(st *State, f *Frame, instr ssa.Value, c *ssa.CallCommon, ar
 		}
 		if ct := vc.eng.findIfaceContract(c); ct != nil {
 			vc.used["interface-contract:"+ct.Target] = true
+			if len(st.frames) == 1 {
+				vc.logCallNamed(st, c.Method.Name(), args)
+			}
 			return done(vc.applyContract(st, ct, c.Signature(), args, nil, pos, "iface"))
 		}
 		vc.used["havoc:"+key] = true
@@ -410,6 +427,10 @@ func (vc *VC) builtin(st *State, f *Frame, b *ssa.Builtin, c *ssa.CallCommon, ar
 	case "close":
 		ch := vc.term(st, args[0], "close")
 		vc.safetyCheck(st, "chan", Not(Eq(ch, IntLit(0))), token.NoPos)
+		// closing a closed channel panics; a closed channel stays closed (ghost heap CHclosed, see closed(ch) in specs)
+		h := vc.chanClosed(st)
+		vc.safetyCheck(st, "close-of-closed-channel", Not(Select(h, ch, sortBool)), token.NoPos)
+		vc.setHeap(st, "CHclosed", Store(h, ch, tTrue))
 		st.events = append(st.events, Event{Kind: "close", Args: []Value{ch}})
 		return nil
 	case "print", "println":
@@ -599,6 +620,14 @@ func (vc *VC) applyContract(st *State, ct *Contract, sig *types.Signature, args 
 	if !ct.ModSet {
 		vc.note("contract of %s has no modifies clause: all heaps havocked at its call sites", ct.Target)
 		vc.havocAll(st)
+		// database transactions the callee may have run: what its contract bounds them by, else unknown (many)
+		bound := 1000
+		for _, cl := range ct.Ensures {
+			if m := txnBoundRE.FindStringSubmatch(strings.TrimSpace(cl.Src)); m != nil {
+				bound, _ = strconv.Atoi(m[1])
+			}
+		}
+		st.txnCount += bound
 	} else {
 		for _, m := range ct.Modifies {
 			vc.havocLocation(envPre, st, m, ct)
@@ -815,6 +844,8 @@ func (vc *VC) callMods(fn *ssa.Function, c *ssa.CallCommon, li *loopInfo, visiti
 			}
 		case "delete":
 			out = append(out, modTarget{kind: "map", mt: c.Args[0].Type().Underlying().(*types.Map)})
+		case "close":
+			out = append(out, modTarget{kind: "chclosed"})
 		}
 		return out
 	}
@@ -1375,6 +1406,7 @@ func (vc *VC) chanInvCheck(st *State, f *Frame, chv ssa.Value, ch *Term, v Value
 		env.frame = f
 		et := chv.Type().Underlying().(*types.Chan).Elem()
 		env.bind("sent", SV{V: vc.term(st, v, "sent"), T: et})
+		env.bind("ch", SV{V: ch, T: chv.Type()})
 		t, err := env.EvalBool(sr.Clause.E)
 		if err != nil {
 			vc.unprovable("sendreq["+sr.Clause.Label+"]@"+vc.site(), vc.clauseProps(vc.contract, sr.Clause), vc.posOf(p), err)
@@ -1663,6 +1695,14 @@ func loggedCallee(fn *ssa.Function, name string) ([]types.Type, bool) {
 				var ts []types.Type
 				for _, p := range callee.Params {
 					ts = append(ts, p.Type())
+				}
+				return ts, true
+			}
+			if cm := cc.Common(); cm.IsInvoke() && cm.Method.Name() == name {
+				ts := []types.Type{cm.Value.Type()}
+				sig := cm.Signature()
+				for i := 0; i < sig.Params().Len(); i++ {
+					ts = append(ts, sig.Params().At(i).Type())
 				}
 				return ts, true
 			}
